@@ -30,6 +30,7 @@ EXPLANATION = (
     "elements (C01's length rule without the spec's multiplicity assumption). Not decided: that "
     "every PS3.8-conformant PDU is accepted, and value-level re-encode fixed points over all "
     "byte strings (string stripping / codecs)."
+    ' Second session: no except clause in the codec modules may swallow a failed item conversion (three read sites excepted); the 6-byte header is parsed only under a guard that turns a short header into Evt17 (try/except struct.error or a dominating length test), with type and length taken from bytes [0] and [2:6] big-endian whatever the spelling; every codec item loop hands on each item or raises.'
 )
 
 
